@@ -139,6 +139,7 @@ struct GenCfg {
   bool allow_div = true;
   bool allow_vec = true;         // vector / matrix sub-expressions
   bool allow_apply = true;
+  bool allow_sqrt = false;       // sqrt: partial domain (EmptyBoxException paths); exact oracle defined on perfect squares
   bool thick_consts = false;
   int max_depth = 4;
 };
@@ -187,7 +188,9 @@ struct ExprGen {
         case 4: if (cfg.allow_div) return gen(1, 1, depth - 1) / gen(1, 1, depth - 1); return sqr(gen(1, 1, depth - 1));
         case 5: return sqr(gen(1, 1, depth - 1));
         case 6: return pow(gen(1, 1, depth - 1), r.range(cfg.allow_div ? -3 : 0, 4));
-        case 7: return -gen(1, 1, depth - 1);
+        case 7: if (cfg.allow_sqrt && r.coin(50)) { // square roots with (often) perfect-square arguments, so that the exact oracle is defined
+                  switch (r.below(3)) { case 0: return sqrt(sqr(gen(1, 1, depth - 1))); case 1: return sqrt(leaf(1, 1)); default: return sqrt(gen(1, 1, depth - 1)); } }
+                return -gen(1, 1, depth - 1);
         case 8: if (cfg.allow_vec) { int n = r.range(2, 3); return gen(1, n, depth - 1) * gen(n, 1, depth - 1); } return gen(1, 1, depth - 1) + gen(1, 1, depth - 1); // dot product
         case 9: if (cfg.allow_vec) { int n = r.range(2, 3); bool row = r.coin(); const ExprNode& v = gen(row ? 1 : n, row ? n : 1, depth - 1); return v[(int)r.below(n)]; }
                 return gen(1, 1, depth - 1) * gen(1, 1, depth - 1);
@@ -212,16 +215,30 @@ struct ExprGen {
         case 4: return transpose(gen(cols, rows, depth - 1));
         case 5: { int k = r.range(2, 3); // matrix-vector / vector-matrix product
                   if (cols == 1) return gen(rows, k, depth - 1) * gen(k, 1, depth - 1); else return gen(1, k, depth - 1) * gen(k, cols, depth - 1); }
-        default: { Array<const ExprNode> a(n); for (int i = 0; i < n; i++) a.set_ref(i, gen(1, 1, depth - 1)); return ExprVector::new_(a, rows == 1 ? ExprVector::ROW : ExprVector::COL); }
+        default: {
+          if (n >= 3 && r.coin(40)) { // a sub-vector block followed (or preceded) by scalars
+            int k = r.range(2, n - 1); bool first = r.coin(70);
+            Array<const ExprNode> a(n - k + 1); int pos = 0;
+            if (first) a.set_ref(pos++, gen(rows == 1 ? 1 : k, rows == 1 ? k : 1, depth - 1));
+            for (int i = 0; i < n - k; i++) a.set_ref(pos++, gen(1, 1, depth - 1));
+            if (!first) a.set_ref(pos++, gen(rows == 1 ? 1 : k, rows == 1 ? k : 1, depth - 1));
+            return ExprVector::new_(a, rows == 1 ? ExprVector::ROW : ExprVector::COL);
+          }
+          Array<const ExprNode> a(n); for (int i = 0; i < n; i++) a.set_ref(i, gen(1, 1, depth - 1)); return ExprVector::new_(a, rows == 1 ? ExprVector::ROW : ExprVector::COL); }
       }
     }
-    switch (r.below(7)) {
+    switch (r.below(9)) {
       case 0: return gen(rows, cols, depth - 1) + gen(rows, cols, depth - 1);
       case 1: return gen(rows, cols, depth - 1) - gen(rows, cols, depth - 1);
       case 2: return gen(1, 1, depth - 1) * gen(rows, cols, depth - 1);
       case 3: return -gen(rows, cols, depth - 1);
       case 4: return transpose(gen(cols, rows, depth - 1));
       case 5: { int k = r.range(2, 3); return gen(rows, k, depth - 1) * gen(k, cols, depth - 1); }
+      case 6: if (r.coin(50)) { // concatenation of matrix / vector blocks (non-square blocks matter)
+        if (cols >= 3 && r.coin()) { int c1 = r.range(1, cols - 1); Array<const ExprNode> a(2); a.set_ref(0, gen(rows, c1, depth - 1)); a.set_ref(1, gen(rows, cols - c1, depth - 1)); return ExprVector::new_(a, ExprVector::ROW); }
+        if (rows >= 3) { int r1 = r.range(1, rows - 1); Array<const ExprNode> a(2); a.set_ref(0, gen(r1, cols, depth - 1)); a.set_ref(1, gen(rows - r1, cols, depth - 1)); return ExprVector::new_(a, ExprVector::COL); }
+        if (cols >= 2) { int c1 = r.range(1, cols - 1); Array<const ExprNode> a(2); a.set_ref(0, gen(rows, c1, depth - 1)); a.set_ref(1, gen(rows, cols - c1, depth - 1)); return ExprVector::new_(a, ExprVector::ROW); }
+      } // fall through
       default: { // rows of row vectors stacked in a column, or columns side by side
         if (r.coin()) { Array<const ExprNode> a(rows); for (int i = 0; i < rows; i++) a.set_ref(i, gen(1, cols, depth - 1)); return ExprVector::new_(a, ExprVector::COL); }
         else { Array<const ExprNode> a(cols); for (int j = 0; j < cols; j++) a.set_ref(j, gen(rows, 1, depth - 1)); return ExprVector::new_(a, ExprVector::ROW); } }
